@@ -893,6 +893,7 @@ def accumulate(n, axis, newaxis, status_cb, target):
 @coroutine
 def downsample(q, target):
     y_remainder = None
+    s0 = None
 
     while True:
         if y_remainder is None:
@@ -909,6 +910,12 @@ def downsample(q, target):
             y_remainder = None
 
         result = y[..., ::q]
+        if isinstance(result, PipelineData):
+            # s0 of the output is counted in output samples (as in decimate)
+            if s0 is None:
+                s0 = result.s0
+            result.s0 = s0
+            s0 += result.shape[-1]
         if len(result):
             target(result)
 
